@@ -101,6 +101,9 @@ pub struct Plan {
     pub late_reset: Option<(usize, u64, u32)>,
     /// Audit API-level flow-control answers against the probe after every write/open (C05)
     pub audit: bool,
+    /// every reset() that succeeded is repeated at once (a redundant call, as a Drop impl following
+    /// an explicit reset makes)
+    pub reset_twice: bool,
 }
 
 #[derive(Debug, Clone, Default)]
@@ -312,7 +315,12 @@ impl StdApp {
                 if t.written >= after as u64 && t.reset_called.is_none() {
                     let code = code ^ self.salt as u32;
                     match cx.conn.send_stream(id).reset(VarInt::from_u32(code)) {
-                        Ok(()) => t.reset_called = Some(code),
+                        Ok(()) => {
+                            t.reset_called = Some(code);
+                            if self.plan.reset_twice {
+                                let _ = cx.conn.send_stream(id).reset(VarInt::from_u32(code));
+                            }
+                        }
                         Err(_) => t.closed_err = true,
                     }
                     t.done_writing = true;
@@ -628,6 +636,10 @@ impl App for StdApp {
                             if cx.conn.send_stream(id).reset(error_code).is_ok() {
                                 t.reset_called = Some(error_code.into_inner() as u32);
                                 did = true;
+                                if self.plan.reset_twice {
+                                    let _ = cx.conn.send_stream(id).finish();
+                                    let _ = cx.conn.send_stream(id).reset(error_code);
+                                }
                             }
                         }
                         self.active.retain(|x| *x != id);
@@ -705,6 +717,9 @@ impl App for StdApp {
                         let id = StreamId::from(VarInt::from_u64(s).unwrap());
                         let code = code ^ self.salt as u32;
                         let r = cx.conn.send_stream(id).reset(VarInt::from_u32(code));
+                        if r.is_ok() && self.plan.reset_twice {
+                            let _ = cx.conn.send_stream(id).reset(VarInt::from_u32(code));
+                        }
                         let t = self.obs.tx.get_mut(&s).unwrap();
                         match r {
                             Ok(()) => t.reset_called = Some(code),
